@@ -451,7 +451,10 @@ func c08Identity(c *eng.Ctx, f *ssa.Function) {
 						switch {
 						case eng.CalleeIs(&call.Call, "net/netip", "ParseAddrPort"):
 							need["parse"] = true
-						case func() bool { fr, _, ok := eng.LoadedField(call.Call.Value); return ok && fr.Is("server", "Server", "whois") }():
+						case func() bool {
+							fr, _, ok := eng.LoadedField(call.Call.Value)
+							return ok && fr.Is("server", "Server", "whois")
+						}():
 							need["whois"] = true
 						default:
 							if cal := eng.Callee(&call.Call); cal != nil && cal.Origin() != nil && eng.FuncIs(cal.Origin(), "tailscale.com/tailcfg", "UnmarshalCapJSON") {
@@ -529,22 +532,35 @@ func c08Client(c *eng.Ctx) {
 	// status mapping
 	want := map[int64]string{404: "ErrNotFound", 403: "ErrAccessDenied", 304: "ErrValueNotChanged"}
 	got := map[int64]string{}
-	for _, r := range eng.Returns(do) {
-		rv := eng.RetVals(r)
-		g := eng.GlobalLoad(rv[len(rv)-1])
-		if g == nil || g.Pkg == nil || !strings.HasSuffix(g.Pkg.Pkg.Path(), "types/api") {
-			continue
-		}
-		for _, cond := range eng.FactsAt(r) {
-			if op, x, y, isCmp := cond.Cmp(); isCmp && op == token.EQL {
-				if k, isK := eng.ConstInt(y); isK {
-					if fr, _, isF := eng.LoadedField(x); isF && fr.Name == "StatusCode" {
-						got[k] = g.Name()
+	isStatus := func(x ssa.Value) bool {
+		fr, _, isF := eng.LoadedField(x)
+		return isF && fr.Name == "StatusCode"
+	}
+	var collect func(f *ssa.Function, codeIs func(ssa.Value) bool, depth int)
+	collect = func(f *ssa.Function, codeIs func(ssa.Value) bool, depth int) {
+		for _, r := range eng.Returns(f) {
+			rv := eng.RetVals(r)
+			last := rv[len(rv)-1]
+			if g := eng.GlobalLoad(last); g != nil && g.Pkg != nil && strings.HasSuffix(g.Pkg.Pkg.Path(), "types/api") {
+				for _, cond := range eng.FactsAt(r) {
+					if op, x, y, isCmp := cond.Cmp(); isCmp && op == token.EQL {
+						if k, isK := eng.ConstInt(y); isK && codeIs(x) {
+							got[k] = g.Name()
+						}
 					}
+				}
+				continue
+			}
+			// the sentinel may be chosen by a helper applied to the status code
+			if call, _ := eng.TupleCall(last); call != nil && depth < 2 {
+				if cal := eng.Callee(&call.Call); cal != nil && cal.Blocks != nil && eng.FuncPkg(cal) == p.TypesPkg(setecPkg) && len(call.Call.Args) == 1 && len(cal.Params) == 1 && codeIs(call.Call.Args[0]) {
+					prm := cal.Params[0]
+					collect(cal, func(x ssa.Value) bool { return eng.Origin(x) == ssa.Value(prm) }, depth+1)
 				}
 			}
 		}
 	}
+	collect(do, isStatus, 0)
 	for code, name := range want {
 		c.Check(got[code] == name, "R-C08-4", do, do.Pos(), "client mapping of status "+itoa(int(code)), "api."+name+" (inverse of the server's table)", "maps to "+got[code])
 	}
